@@ -72,7 +72,7 @@ Proof. unfold next_iter. destruct (ml_rem ml =? 0); [apply pc_ok_start_finish | 
 
 Lemma owned_start pr c : owned (start pr c) = add_id c.
 Proof.
-  destruct c as [o|qty taker|u| | | | |]; cbn [start add_id]; try reflexivity.
+  destruct c as [o|qty taker|u| | | | | |]; cbn [start add_id]; try reflexivity.
   - rewrite owned_next_iter. reflexivity.
   - destruct u; cbn; try reflexivity;
       match goal with |- context [if ?b then _ else _] => destruct b end; reflexivity.
@@ -80,7 +80,7 @@ Qed.
 
 Lemma held_start pr c : held_ids (start pr c) = [].
 Proof.
-  destruct c as [o|qty taker|u| | | | |]; cbn [start]; try reflexivity.
+  destruct c as [o|qty taker|u| | | | | |]; cbn [start]; try reflexivity.
   - rewrite held_next_iter. reflexivity.
   - destruct u; cbn; try reflexivity;
       match goal with |- context [if ?b then _ else _] => destruct b end; reflexivity.
@@ -88,7 +88,7 @@ Qed.
 
 Lemma pc_ok_start pr c : pc_ok (start pr c).
 Proof.
-  destruct c as [o|qty taker|u| | | | |]; cbn [start]; try exact I.
+  destruct c as [o|qty taker|u| | | | | |]; cbn [start]; try exact I.
   - apply pc_ok_next_iter.
   - destruct u; cbn; try exact I;
       match goal with |- context [if ?b then _ else _] => destruct b end; exact I.
